@@ -4,6 +4,8 @@
    for a clock time, the dummy swap for own-time look-ups, reader thread interleaved at word granularity)
    against the P_C05 reference (exact time for every partition into callbacks and chunks, fire window,
    reads monotone and real).  The two known findings are named states (KnownD10, KnownD11): anything else fails.
+   ClockHandle::stop is modelled as the two command writes it is, against the callback's three command reads
+   (family 'racy-stop'; the read order before fix D26 must violate 'stopping resets it to zero').
 2. TLC-generated behaviours - sequential histories, reader/publisher interleavings, and the directed
    witnesses of both findings - are replayed on a real clock through the manager/renderer, the reader
    parked at clk.read.mid and the audio thread at clk.pub.mid / clk.reset.mid.
@@ -18,10 +20,10 @@ MANIFEST = dict(
     level="model_checking", design_ref="DESIGN.md 8 (C05), 7 (Clock), Appendix A.4",
     technique="TLA+ model of the clock (TLC: all command histories x callback/chunk partitions, reader/publisher interleavings at word granularity) against an exact reference; TLC schedules replayed on the real clock through cfg(kira_verif) yield points; TLC trace validation against P_C05; two known findings matched by signature",
     text="TLC checks that for every history of start/pause/stop/speed commands (immediate, or delayed by some frames of audio time that pass whether or not the clock ticks) and every partition of time into callbacks and internal chunks the published time equals speed x running time at a chunk boundary, that a sound scheduled for a clock time starts in the chunk during which the ticking clock reaches it (never late, never while paused or short), and explores every interleaving of a two-word time() read with the audio thread's two-word publication. Generated schedules are forced onto the real clock; every recorded session is validated by TLC against the same reference.",
-    note="Speeds and times are dyadic (1/4 tick units) so comparisons are exact. Speed changes are zero-length tweens, immediate or delayed by a number of frames; tweens of non-zero duration are not generated (the code integrates them stepwise per chunk; the statement gives no tolerance). A stop() overlapping a callback or a read (second writer of the two words) is not explored. Known findings D10 (torn read) and D11 (own-time speed change never fires) are listed in known_findings.json; the missing-clock cancellation is covered by C03.")
+    note="Speeds and times are dyadic (1/4 tick units) so comparisons are exact. Speed changes are zero-length tweens, immediate or delayed by a number of frames; tweens of non-zero duration are not generated (the code integrates them stepwise per chunk; the statement gives no tolerance). A stop() overlapping a callback's command reads is explored at the granularity of its two command writes (cmd.w / cmd.r yield points); a stop() overlapping a time() read (second writer of the two published words) is not. Known findings D10 (torn read) and D11 (own-time speed change never fires) are listed in known_findings.json; the missing-clock cancellation is covered by C03.")
 
 
-def cfg(b, ns, speeds, targets, maxcmd, maxcb, maxrd, maxsched, own, extra, spec=None, delays=()):
+def cfg(b, ns, speeds, targets, maxcmd, maxcb, maxrd, maxsched, own, extra, spec=None, delays=(), racy=False, reset_first=True):
     return """SPECIFICATION %s
 CONSTANTS
   B = %d
@@ -34,10 +36,12 @@ CONSTANTS
   MaxRd = %d
   MaxSched = %d
   OwnTime = %s
+  Racy = %s
+  ResetFirst = %s
 %s
 CHECK_DEADLOCK FALSE
 """ % (spec or ("GSpec" if "D =" in extra else "Spec"), b, ", ".join(map(str, ns)), ", ".join(map(str, speeds)),
-       ", ".join(map(str, targets)), ", ".join(map(str, delays)), maxcmd, maxcb, maxrd, maxsched, "TRUE" if own else "FALSE", extra)
+       ", ".join(map(str, targets)), ", ".join(map(str, delays)), maxcmd, maxcb, maxrd, maxsched, "TRUE" if own else "FALSE", "TRUE" if racy else "FALSE", "TRUE" if reset_first else "FALSE", extra)
 
 
 def write_cfg(name, text):
@@ -53,6 +57,8 @@ def model_check(res, tier):
         ("sequential", cfg(2, [1, 3], [1, 2, 4], [3, 8], 2 if q else 3, 4 if q else 5, 0, 1, False, "VIEW View\nINVARIANTS PropertyHoldsSequential InternalTimeExact")),
         ("reads", cfg(2, [1, 3], [1, 2, 4], [3], 2, 3 if q else 4, 2, 0, False, "VIEW View\nINVARIANTS PropertyHolds InternalTimeExact")),
         ("delayed", cfg(2, [1, 3], [1, 2], [3], 2 if q else 3, 4 if q else 5, 0, 0, False, "VIEW View\nINVARIANTS PropertyHoldsSequential InternalTimeExact", delays=[1, 2, 5])),
+        # ClockHandle::stop as two command writes against the callback's three command reads, every interleaving
+        ("racy-stop", cfg(2, [1, 3], [1, 2], [3], 3, 4 if q else 5, 0, 0, False, "VIEW View\nINVARIANTS PropertyHoldsSequential InternalTimeExact", racy=True)),
         ("own-time", cfg(2, [1, 3], [1, 2], [3, 8], 2, 4 if q else 5, 0, 0, True, "VIEW View\nINVARIANTS PropertyHoldsSequential InternalTimeExact")),
     ]
     if not q:
@@ -62,6 +68,11 @@ def model_check(res, tier):
         if st["violated"]:
             res.drift.append({"model": "Clock/" + name, "violated": st["violated"]})
         res.add_mc("Clock/" + name, st)
+    # the read order before fix D26 (set_ticking, then reset) must violate "stopping resets it to zero"
+    tlc_check("MC_Clock.tla", write_cfg("Clock_racy_prefix.cfg", cfg(2, [1, 3], [1, 2], [3], 3, 4, 0, 0, False, "VIEW View\nINVARIANT PropertyHoldsSequential", racy=True, reset_first=False)),
+              workers=4, timeout=900, expect_violation="PropertyHoldsSequential", tag="c05w")
+    tlc_check("MC_Clock.tla", write_cfg("Clock_W_RacyStop.cfg", cfg(2, [1, 3], [1, 2], [3], 3, 4, 0, 0, False, "VIEW View\nINVARIANT W_RacyStop", racy=True)),
+              workers=4, timeout=900, expect_violation="W_RacyStop", tag="c05w")
     for w, own, rd, sch in (("W_Torn", False, 2, 0), ("W_Own", True, 0, 0), ("W_Fired", False, 0, 1), ("W_DelayRanOutWhileNotTicking", False, 0, 0)):
         tlc_check("MC_Clock.tla", write_cfg("Clock_%s.cfg" % w, cfg(2, [1, 3], [1, 2], [3], 2, 4, rd, sch, own, "VIEW View\nINVARIANT " + w, delays=[2])),
                   workers=4, timeout=900, expect_violation=w, tag="c05w")
@@ -71,9 +82,12 @@ def generate(tier, rng):
     scen = []
     num = 60 if tier == "quick" else 2500
 
+    full_cb = lambda n: [{"act": "ABeginR", "n": n}, {"act": "ARdSpeed"}, {"act": "ARdA"}, {"act": "ARdB"}, {"act": "APubTicks"}, {"act": "ARun"}]
+
     def add(bs, b, speeds, src):
         for x in bs:
-            scen.append({"b": b, "speed0": min(speeds), "src": src, "steps": x})
+            # (racy family: three more callbacks, so that a stop near the end of the history is seen to settle)
+            scen.append({"b": b, "speed0": min(speeds), "src": src, "steps": x + (full_cb(1) + full_cb(3) + full_cb(1) if "racy" in src or "D26" in src else [])})
     for b, ns, speeds, targets in ((2, [1, 3, 4], [1, 2, 4], [3, 8, 13]), (4, [1, 4, 6], [1, 2], [2, 9]), (1, [1, 2], [2, 4], [4, 6])):
         base = cfg(b, ns, speeds, targets, 6, 12, 0, 1, False, "  D = 28\nCONSTRAINT Bound\nINVARIANT Dump\n", delays=[1, 3, 6])
         add(tlc_generate("Gen_Clock.tla", write_cfg("Gen_Clock_seq_%d.cfg" % b, base), "sim", num=num * 3, depth=36, tag="c05g")[:num * 3], b, speeds, "tlc-sim")
@@ -81,6 +95,12 @@ def generate(tier, rng):
         add(tlc_generate("Gen_Clock.tla", write_cfg("Gen_Clock_rd_%d.cfg" % b, base), "sim", num=num, depth=36, tag="c05g")[:num * 2], b, speeds, "tlc-sim-reads")
         base = cfg(b, ns, speeds, targets, 3, 8, 0, 0, True, "  D = 18\nCONSTRAINT Bound\nINVARIANT Dump\n")
         add(tlc_generate("Gen_Clock.tla", write_cfg("Gen_Clock_own_%d.cfg" % b, base), "sim", num=num // 3, depth=28, tag="c05g")[:num], b, speeds, "tlc-sim-own")
+        # stop() split into its two writes, the callback's command reads one by one
+        base = cfg(b, ns, speeds, targets, 4, 8, 0, 0, False, "  D = 30\nCONSTRAINT Bound\nINVARIANT Dump\n", racy=True)
+        add(tlc_generate("Gen_Clock.tla", write_cfg("Gen_Clock_racy_%d.cfg" % b, base), "sim", num=num * 8, depth=32, tag="c05g")[:num * 2], b, speeds, "tlc-sim-racy-stop")
+    # directed witness of D26 (fixed): the shortest schedule on which the read order before the fix loses the reset
+    add(tlc_generate("Gen_Clock.tla", write_cfg("Gen_Clock_d26.cfg", cfg(2, [1, 3], [1, 2], [3], 3, 4, 0, 0, False,
+        "  D = 40\nCONSTRAINT Bound\nVIEW GView\nINVARIANT WG_D26\n", racy=True, reset_first=False)), "bfs", tag="c05g")[:1], 2, [1, 2], "tlc-WG_D26")
     # directed witnesses of the two known findings (shortest schedules)
     add(tlc_generate("Gen_Clock.tla", write_cfg("Gen_Clock_torn.cfg", cfg(2, [1, 3], [1, 2], [3], 2, 4, 2, 0, False,
         "  D = 40\nCONSTRAINT Bound\nVIEW GView\nINVARIANT WG_Torn\n")), "bfs", tag="c05g")[:1], 2, [1, 2], "tlc-WG_Torn")
@@ -92,8 +112,12 @@ def generate(tier, rng):
 def drift_of(scen, sessions):
     out = []
     for k, sc in enumerate(scen):
+        if sc["src"] == "tlc-WG_D26":
+            continue        # (generated from the model of the code before the fix: its events are those of the defect)
         evs = [e for e in sessions.get(k + 1, []) if e["a"] not in ("reset", "end")]
         for j, step in enumerate(sc["steps"]):
+            if "ev" not in step:
+                break
             if j >= len(evs):
                 out.append({"session": k + 1, "step": j, "why": "real run ended early"})
                 break
